@@ -26,8 +26,8 @@ run_demo() { # returns demo exit code
 		if [ -z "$pkg" ]; then pkg=$(python3 -c "import json,sys; m=json.load(open(sys.argv[1])); print(m.get('demo_package') or m.get('package') or '')" "$D/meta.json" 2>/dev/null); fi
 		if [ -z "$pkg" ]; then echo "no package for demo test" >&2; return 99; fi
 		cp "$t" "$WT/$pkg/zz_demo_test.go"
-		local name; name=$(grep -o 'func Test[A-Za-z0-9_]*' "$t" | head -1 | sed 's/func //')
-		(cd "$WT" && go test -vet=off -count=1 -run "^${name}\$" "./$pkg/") >"$WT/.demo.out" 2>&1
+		local name; name=$(grep -o 'func Test[A-Za-z0-9_]*' "$t" | sed 's/func //' | paste -sd'|')
+		(cd "$WT" && go test -vet=off -count=1 -run "^(${name})\$" "./$pkg/") >"$WT/.demo.out" 2>&1
 		local rc=$?
 		rm -f "$WT/$pkg/zz_demo_test.go"
 		return $rc
